@@ -186,7 +186,9 @@ func Generate(r *rand.Rand, o Opts) *Project {
 	if !o.NoNestedMain && r.Intn(3) == 0 {
 		for _, pk := range p.Pkgs {
 			if pk.IsMain && pk.Dir != "." {
-				nm := &Pkg{Dir: pk.Dir + "/tools/dump", Name: "main", IsMain: true}
+				// "hack" sorts before the entry file of the outer package, "tools" after it
+				sub := []string{"/tools/dump", "/hack/gen"}[r.Intn(2)]
+				nm := &Pkg{Dir: pk.Dir + sub, Name: "main", IsMain: true}
 				for j := 0; j < nLibs; j++ {
 					if j != orphan && r.Intn(100) < 50 {
 						nm.Imports = append(nm.Imports, j)
@@ -457,7 +459,7 @@ func (p *Project) addShapes(r *rand.Rand, o Opts) {
 	// main package's directory (tool dependencies): the directory is still a main package
 	if r.Intn(3) == 0 {
 		for _, pk := range p.Pkgs {
-			if pk.IsMain && pk.Dir != "." {
+			if pk.IsMain {
 				deps := "//go:build tools\n\npackage tools\n\nimport _ \"fmt\"\n"
 				p.ExtraOld[filepath.Join(pk.Dir, "a_deps.go")] = deps
 				p.ExtraNew[filepath.Join(pk.Dir, "a_deps.go")] = deps
@@ -493,6 +495,14 @@ func (p *Project) addShapes(r *rand.Rand, o Opts) {
 		}
 		p.ExtraOld["pkg/l0/zz_cfgdoc.go"] = doc(1)
 		p.ExtraNew["pkg/l0/zz_cfgdoc.go"] = doc(2)
+	}
+	// number literals in spellings go/printer would "normalise" if asked to (0X1F, 0B101, 0O17, 1E3)
+	if r.Intn(2) == 0 {
+		lit := func(k int) string {
+			return fmt.Sprintf("package l0\n\n// Literals keeps the spelling of its constants.\nfunc Literals(a int) int {\n\ta += 0X1F + 0B101 + 0O17\n\ta += %d\n\tif float64(a) > 1E3 {\n\t\ta -= 0XFF\n\t}\n\treturn a\n}\n", k)
+		}
+		p.ExtraOld["pkg/l0/zz_literals.go"] = lit(1)
+		p.ExtraNew["pkg/l0/zz_literals.go"] = lit(2)
 	}
 	hello := func(k int) string {
 		return fmt.Sprintf("package hello\n\n// Hello is example code.\nfunc Hello(a int) int {\n\ta += %d\n\treturn a\n}\n", k)
